@@ -6,20 +6,16 @@
    sets the property speaks about: module paths with symbols, gates per path, and connections
    between absolute gate positions with their link parameters.
 
-   Scope: the generics-free fragment (no `T <- I` bindings, no type arguments); for other
-   descriptions [den_node] is None. *)
+   Generic definitions denote a tree with open type parameters: a field of parameter type is the
+   bound's tree labelled with the parameter; an instantiation `G(A1..An)` is G's tree with every such
+   field replaced by the tree of the corresponding argument, which must conform to the bound. *)
 From Coq Require Import List NArith Bool.
 From DesVerif Require Import Ndl.Bytes Ndl.Grammar Ndl.Def Ndl.Transform Ndl.Build.
 Import ListNotations.
 Open Scope N_scope.
 
-Definition generics_free (d : Def) : bool :=
-  forallb (fun im => match tc_args (fst im) with [] => true | _ => false end &&
-                     forallb (fun st => match tc_args (snd st) with [] => true | _ => false end) (md_subs (snd im)))
-          (d_modules d).
-
-Definition find_module (d : Def) (k : ident) : option ModuleDef :=
-  option_map snd (find (fun im => beq (tc_ident (fst im)) k) (d_modules d)).
+Definition find_entry (d : Def) (k : ident) : option (TypClause Generic * ModuleDef) :=
+  find (fun im => beq (tc_ident (fst im)) k) (d_modules d).
 
 Fixpoint map_opt {A B} (f : A -> option B) (l : list A) : option (list B) :=
   match l with
@@ -27,22 +23,71 @@ Fixpoint map_opt {A B} (f : A -> option B) (l : list A) : option (list B) :=
   | a :: r => match f a, map_opt f r with Some b, Some bs => Some (b :: bs) | _, _ => None end
   end.
 
-Fixpoint den_node (d : Def) (fuel : nat) (k : ident) : option Node :=
+(* one submodule field, given what the other definitions denote ([look]) *)
+Section Field.
+  Variable look : ident -> option (Node * list Generic).
+
+  (* the substitution `G(A1..An)` denotes: A_i must not be a parameter of the enclosing definition, must be a
+     definition without parameters of its own, and must conform to the bound of G's i-th parameter *)
+  Fixpoint den_sigma (self_args reqs : list Generic) (args : list ident) : option (list (ident * Node)) :=
+    match reqs with
+    | [] => Some []
+    | gb :: reqs' =>
+      match args with
+      | [] => None
+      | name :: args' =>
+        if is_binding self_args name then None else
+        match look name, look (g_bound gb) with
+        | Some (repl, []), Some (iface, _) =>
+          if conform_to repl iface then option_map (cons (g_binding gb, repl)) (den_sigma self_args reqs' args') else None
+        | _, _ => None
+        end
+      end
+    end.
+
+  (* `f: T` with T a parameter: the bound's tree labelled T;  `f: M`: M's tree;
+     `f: G(A1..An)`: G's tree with every field of parameter type replaced by the argument's tree *)
+  Definition den_field (self_args : list Generic) (st : FieldDef * TypClause ident) : option (FieldDef * Node) :=
+    let (field, typ) := st in
+    if kard_eqb (fd_kard field) (Cluster 0) then None else
+    match tc_args typ with
+    | [] =>
+      match look (inner_ty_to_outer_ty self_args (tc_ident typ)) with
+      | Some (n, []) => Some (field, set_typ n (tc_ident typ))
+      | _ => None
+      end
+    | _ :: _ =>
+      if is_binding self_args (tc_ident typ) then None else
+      match look (tc_ident typ) with
+      | Some (node, reqs) =>
+        if Nat.eqb (length reqs) (length (tc_args typ)) then
+          match den_sigma self_args reqs (tc_args typ) with
+          | Some sigma => Some (field, mkNode (n_typ node) (map (subst_field sigma) (n_subs node)) (n_gates node) (n_conns node))
+          | None => None
+          end
+        else None
+      | None => None
+      end
+    end.
+End Field.
+
+(* the tree (with its open type parameters) a definition denotes *)
+Fixpoint den_node (d : Def) (fuel : nat) (k : ident) : option (Node * list Generic) :=
   match fuel with
   | O => None
   | S f =>
-    match find_module d k with
+    match find_entry d k with
     | None => None
-    | Some m =>
-      match map_opt (fun st => option_map (fun n => (fst st, n)) (den_node d f (tc_ident (snd st)))) (md_subs m),
-            match md_inherit m with None => Some (mkNode [] [] [] []) | Some p => den_node d f p end with
-      | Some subs_own, Some parent =>
-        if existsb (fun v => kard_eqb (fd_kard v) (Cluster 0)) (md_gates m) ||
-           existsb (fun st => kard_eqb (fd_kard (fst st)) (Cluster 0)) (md_subs m) then None else
+    | Some (self, m) =>
+      if has_dup_binding (tc_args self) || existsb (fun v => kard_eqb (fd_kard v) (Cluster 0)) (md_gates m) then None else
+      match map_opt (den_field (den_node d f) (tc_args self)) (md_subs m),
+            match md_inherit m with None => Some (mkNode [] [] [] [], []) | Some p => den_node d f p end with
+      | Some subs_own, Some (parent, _) =>
         let gates := set_extend (set_extend [] (md_gates m)) (n_gates parent) in
         let subs := subs_own ++ n_subs parent in
+        if has_dup_field subs then None else
         match transform_connections (n_conns parent) (md_conns m) subs gates (d_links d) with
-        | Ok conns => Some (mkNode k subs gates conns)
+        | Ok conns => Some (mkNode k subs gates conns, tc_args self)
         | _ => None
         end
       | _, _ => None
@@ -51,7 +96,7 @@ Fixpoint den_node (d : Def) (fuel : nat) (k : ident) : option Node :=
   end.
 
 Definition denote_tree (d : Def) : option Node :=
-  if generics_free d then den_node d (S (length (d_modules d))) (d_entry d) else None.
+  option_map fst (den_node d (S (length (d_modules d))) (d_entry d)).
 
 (* ---- flattening ---- *)
 
